@@ -21,7 +21,9 @@ ASSUMPTIONS = [
     'the spec-level GHASH (bitwise GF(2^128)) and BIGNUM Poly1305 references are validated against EVP AES-GCM and EVP '
     'ChaCha20-Poly1305 on 40 random inputs each at start-up of every worker',
     'the 32-bit CTR / ChaCha20 block counter wraps modulo 2^32 without touching IV/nonce (NIST SP800-38A B.1 as quoted in bearssl_block.h)',
-    'the value returned by CTR/ChaCha20 run after a partial last block is undocumented and not judged (recorded only)',
+    'AES-CTR run after a partial last block is expected to return cc + ceil(len/16) (behaviour of aes_big/small/ct, made '
+    'uniform by fix 6db69a2; relied on by AESCTR_DRBG) - judged under the separate aspect counter-partial; the value '
+    'returned by ChaCha20 run after a partial last block is not documented and not judged (recorded only)',
     'DES(K) = 3DES(K,K,K) and two-key 3DES = 3DES(K1,K2,K1) (reference uses DES-EDE3-CBC; DES-CBC / DES-EDE-CBC used as a '
     'second opinion when the provider has them)',
     'the poly1305-edge cases pass a stand-in stream cipher as ichacha so that r,s can be chosen; the poly1305-crafted '
@@ -38,8 +40,8 @@ N = 16
 
 # (reps, random cases per family and rep) - bounded by case counts only
 SCALE = {
-    'quick':    dict(blk=(4, 1200), str=(8, 1200)),
-    'thorough': dict(blk=(50, 9600), str=(100, 9600)),
+    'quick':    dict(blk=(2, 1000), str=(4, 1000)),
+    'thorough': dict(blk=(40, 8000), str=(80, 8000)),
 }
 
 
@@ -54,7 +56,6 @@ def jobs(tier, seed):
                            ['--seed', seed, '--worker', i, '--nworkers', N, '--reps', reps, '--cases', cases,
                             '--split-max', 1024, '--max-len', 4096, '--every-len', 1100],
                            flavour='asan', libs=['-lcrypto'], timeout=to))
-    # long jobs first so that the short ones fill the gaps
     return out
 
 
@@ -62,6 +63,6 @@ def coverage_extra(res, tier):
     pres = sorted(res.distinct.get('present', ()))
     return dict(implementations_present=pres,
                 reference=sorted(res.distinct.get('reference', ())),
-                undocumented_partial_block_return=sorted(set(res.distinct.get('ctr_partial_return', ())) |
+                partial_block_return_minus_floor=sorted(set(res.distinct.get('ctr_partial_return', ())) |
                                                          set(res.distinct.get('chacha_partial_return', ()))),
                 library_calls=res.sums.get('calls', 0))
